@@ -22,9 +22,10 @@ META = {
                   'the case table status x form x method x body sources x preset headers x interface x fault point; '
                   'every case of the table is executed on the real WSGI and ASGI apps and compared with the behaviour '
                   'TLC computed; random responses beyond the table are judged by TLC with the same clause operators.',
-    'level_note': 'Bounded: table of 2.4e4 (quick) / 1.5e5 (thorough) cases, <= 3 stream blocks, <= 2 SSE events; random '
+    'level_note': 'Bounded: table of 2.4e4 (quick) / 2.7e5 (thorough) cases, <= 3 stream blocks, <= 2 SSE events; random '
                   'leg <= 5 blocks, 18 status codes, 6 methods. Fault points are explored for int-status, plain-header '
-                  'cases. Trusted: TLC, the protocol monitors and stream doubles of the harness, json.loads, re. '
+                  'cases; the D-level (exact event sequence) comparison is skipped in the domain of the two reported '
+                  'deviations. Trusted: TLC, the protocol monitors and stream doubles of the harness, json.loads, re. '
                   'Invalid status values, unserialisable media (C04) and falsy stream objects are outside the domain. '
                   'The SSE wire format is only tokenised, not judged.',
 }
@@ -642,7 +643,7 @@ def random_case(rng):
 def judge_and_report(ctx, items, workers=8):
     """items: list of (case, variant, obs).  TLC judges the observations."""
     traces = [{k: v for k, v in obs.items() if k != '_info'} for _, _, obs in items]
-    verdicts = ctx.judge('ResponseEmitTrace', traces, workers=workers, timeout=900, chunk=5000)
+    verdicts = ctx.judge('ResponseEmitTrace', traces, workers=workers, timeout=1200, chunk=20000)
     nbad = 0
     for (case, variant, obs), v in zip(items, verdicts):
         if v != 'ok':
@@ -714,7 +715,7 @@ def _run(ctx):
     ctx.progress('leg A done: %d replays' % replayed)
 
     # ---- leg B: random observations judged by TLC ------------------------------------------------
-    n = ctx.pick(9000, 150000)
+    n = ctx.pick(6000, 100000)
     items, seen = [], set()
     for _ in range(n):
         case, variant = random_case(ctx.rng)
